@@ -133,21 +133,25 @@ Definition r_model_obs (c : rcase) :=
    map (fun q => (clean_string (qp q), serve_allowed r (qm q) (qp q))) (creqs c)).
 
 (* ================================================================ server level
-   the same route tables registered through rest.Server (AddRoutes with prefixes,
-   groups, middlewares, custom 404/405 handlers, CORS) and bound by Start *)
+   The user's route tables (slices with their own backing arrays) are mounted by a sequence of
+   events on one or several rest.Server instances (the same slice value or sub-slices of it any
+   number of times, AddRoutes or AddRoute, options in a given order) and bound by Start. *)
 
 Record sreq := mkSReq
-  { sqm : string; sqp : string;
+  { sqs : nat;               (* the server the request is sent to *)
+    sqm : string; sqp : string;
     sqres : sresponse;
     sqmws : list Z }.        (* middleware tags the handler saw, outermost first *)
 
-Inductive start_obs := ObsStarted | ObsFailed (e : reg_result).
+Inductive start_obs := ObsStarted | ObsFailed (e : reg_result) | ObsNever.
 
 Record scase := mkSCase
-  { snf : bool; sna : bool; scors : bool; suse : bool;
-    sgroups : list group;
-    sstart : start_obs;                       (* how Start ended *)
-    sroutes : list (string * string);         (* Server.Routes() *)
+  { stables : store;                          (* what the user wrote *)
+    scfgs : list scfg;
+    sevents : list event;
+    sstarts : list start_obs;                 (* per server: how Start ended *)
+    sroutes : list (list (string * string));  (* per server: Server.Routes() after the last event *)
+    safter : list (list (string * string));   (* the user's tables after the last event *)
     sreqs : list sreq }.
 
 Definition sresponse_eqb (a b : sresponse) : bool :=
@@ -165,32 +169,51 @@ Definition route_agrees (g : reg) (o : string * string) : bool :=
   | None => match snd o with String c _ => negb (Ascii.eqb c slash) | EmptyString => true end
   end.
 
-Definition mws_ok (use : bool) (gs : list group) (q : sreq) : bool :=
+Definition written_agrees (g : reg) (o : string * string) : bool :=
+  (rmethod g =? fst o) && (rpath g =? snd o).
+
+Definition mws_ok (c : scfg) (q : sreq) : bool :=
   match sqres q with
-  | SResp (RHandler h _) => list_eqb Z.eqb (sqmws q) (mw_expected use gs h)
+  | SResp (RHandler h _) => list_eqb Z.eqb (sqmws q) (mw_expected c h)
   | _ => match sqmws q with [] => true | _ => false end
   end.
 
-Definition s_agrees (s : scase) : bool :=
-  forallb2 route_agrees (server_routes (sgroups s)) (sroutes s)
-  && match server_start (snf s) (sna s) (scors s) (sgroups s), sstart s with
-     | StartFailed e, ObsFailed e' => reg_result_eqb e e'
-     | Started r, ObsStarted =>
-       forallb (fun q => existsb (sresponse_eqb (sqres q)) (sserve_allowed (scors s) r (sqm q) (sqp q))
-                         && mws_ok (suse s) (sgroups s) q) (sreqs s)
-     | _, _ => false
-     end.
+Definition start_agrees (m : option start_result) (o : start_obs) : bool :=
+  match m, o with
+  | Some (StartFailed e), ObsFailed e' => reg_result_eqb e e'
+  | Some (Started _), ObsStarted => true
+  | None, ObsNever => true
+  | _, _ => false
+  end.
 
-(* the property, from the LIST of prefixed routes.  Registration at server level: Start dies
-   with the first error the list prescribes, and only then.  With rest.WithCors() the 405/Allow
-   clause and dispatch of OPTIONS routes are replaced by what the option documents (204 for
-   every OPTIONS request, 404 for a would-be 405): those answers are accepted only in exactly
-   those situations. *)
+Fixpoint seq_from (i n : nat) : list nat :=
+  match n with O => [] | S n' => i :: seq_from (S i) n' end.
+
+(* the heap model replays the registration sequence and reproduces what was observed *)
+Definition s_agrees (s : scase) : bool :=
+  let w := run opt_real (scfgs s) (stables s) (sevents s) in
+  let ids := seq_from 0 (List.length (scfgs s)) in
+  forallb2 (fun i o => start_agrees (start_of (wstarts w) i) o) ids (sstarts s)
+  && forallb2 (fun i o => forallb2 route_agrees (engine_regs (wstore w) (wgroups w) i) o) ids (sroutes s)
+  && forallb2 (fun t o => forallb2 written_agrees t o) (wstore w) (safter s)
+  && forallb (fun q =>
+       match start_of (wstarts w) (sqs q) with
+       | Some (Started r) =>
+         let c := nth (sqs q) (scfgs s) default_cfg in
+         existsb (sresponse_eqb (sqres q)) (sserve_allowed (sc_cors c) r (sqm q) (sqp q)) && mws_ok c q
+       | _ => false
+       end) (sreqs s).
+
+(* the property, from what the user wrote only: for every server the route list is the union of
+   the prefix-extended tables mounted on it ([spec_regs]; no store, no aliasing).  Registration at
+   server level: Start dies with the first error the list prescribes, and only then.  With
+   rest.WithCors() the 405/Allow clause and dispatch of OPTIONS routes are replaced by what the
+   option documents (204 for every OPTIONS request, 404 for a would-be 405): those answers are
+   accepted only in exactly those situations. *)
 Definition first_error (l : list reg_result) : option reg_result :=
   find (fun e => negb (reg_result_eqb e RegOk)) l.
 
 Definition sresponse_ok (T : table) (nf na cors : bool) (q : sreq) : bool :=
-  let rq := mkReq (sqm q) (sqp q) "" RNotFound in
   if cors then
     if sqm q =? "OPTIONS" then sresponse_eqb (sqres q) SCors204
     else match sqres q with
@@ -207,24 +230,49 @@ Definition sresponse_ok (T : table) (nf na cors : bool) (q : sreq) : bool :=
        | SCors204 => false
        end.
 
+(* the route list of server i as the user wrote it *)
+Definition user_regs (s : scase) (i : nat) : list reg :=
+  spec_regs (stables s) (before_start i (sevents s)) i.
+
+Definition server_in_scope (s : scase) (i : nat) : bool :=
+  one_var_name_per_position (table_of (user_regs s i)).
+
+Definition start_ok (s : scase) (i : nat) (o : start_obs) : bool :=
+  if negb (server_in_scope s i) then true
+  else if negb (has_start i (sevents s)) then match o with ObsNever => true | _ => false end
+  else match first_error (reg_results [] (user_regs s i)), o with
+       | Some e, ObsFailed e' => reg_result_eqb e e'
+       | None, ObsStarted => true
+       | _, _ => false
+       end.
+
+Definition sreq_ok (s : scase) (q : sreq) : bool :=
+  let i := sqs q in
+  if negb (server_in_scope s i) then true
+  else
+    let c := nth i (scfgs s) default_cfg in
+    let regs := user_regs s i in
+    match first_error (reg_results [] regs) with
+    | Some _ => false          (* the server cannot have answered *)
+    | None => sresponse_ok (table_of regs) (sc_nf c) (sc_na c) (sc_cors c) q && mws_ok c q
+    end.
+
 Definition s_prop_ok (s : scase) : bool :=
-  let regs := server_routes (sgroups s) in
-  let T := table_of regs in
-  if one_var_name_per_position T then
-    match first_error (reg_results [] regs), sstart s with
-    | Some e, ObsFailed e' => reg_result_eqb e e'
-    | None, ObsStarted =>
-      forallb (fun q => sresponse_ok T (snf s) (sna s) (scors s) q && mws_ok (suse s) (sgroups s) q) (sreqs s)
-    | _, _ => false
-    end
-  else true.
+  forallb2 (start_ok s) (seq_from 0 (List.length (scfgs s))) (sstarts s)
+  && forallb (sreq_ok s) (sreqs s).
 
 Definition s_model_obs (s : scase) :=
-  (server_routes (sgroups s),
-   match server_start (snf s) (sna s) (scors s) (sgroups s) with
-   | StartFailed e => (Some e, [])
-   | Started r => (None, map (fun q => sserve_allowed (scors s) r (sqm q) (sqp q)) (sreqs s))
-   end).
+  let w := run opt_real (scfgs s) (stables s) (sevents s) in
+  (map (fun i => (map (fun g => (rmethod g, rpath g)) (engine_regs (wstore w) (wgroups w) i),
+                  match start_of (wstarts w) i with
+                  | Some (StartFailed e) => Some e
+                  | _ => None
+                  end)) (seq_from 0 (List.length (scfgs s))),
+   map (fun q => match start_of (wstarts w) (sqs q) with
+                 | Some (Started r) =>
+                   sserve_allowed (sc_cors (nth (sqs q) (scfgs s) default_cfg)) r (sqm q) (sqp q)
+                 | _ => []
+                 end) (sreqs s)).
 
 (* ================================================================ both kinds *)
 Inductive case := CRouter (c : rcase) | CServer (s : scase).
